@@ -1,5 +1,6 @@
 SPECIFICATION Spec
 CONSTANTS
+ Small = FALSE
  Msgs <- MCMsgs
  RL = 1
  MaxLoss = 2
